@@ -9,7 +9,8 @@ ID = "C19"
 LEVEL = "translation_validation"
 RULE = ("every run_experiment_group definition with 0..3 instances x chain_experiments x group deps {none, one, two incl. another "
         "package} x per-instance args/options/parallelizable (2 values each) x name clashes (instance=instance, instance=group, "
-        "instance=other task) x malformed members; an independent expander emits the explicit run_experiment/combine COND text the "
+        "instance=other task) x malformed members x per-instance args/options of the wrong shape (tuples, strings, dicts, ranges, None, "
+        "pair lists, nested values); an independent expander emits the explicit run_experiment/combine COND text the "
         "documentation prescribes; both forms are loaded through the real TaskIndex and the task graphs compared (identifiers, types, "
         "ordered deps, run, args, options, flags; accept/reject agreement), and for <=2 instances both forms are executed under the "
         "virtual kernel and spawn traces, Conductor output and resulting cond-out trees compared. programs = group definitions; "
@@ -29,15 +30,22 @@ SUPPORT = 'run_command(name="base", run="./base.sh")\nrun_command(name="sib", ru
 SUPPORT_P = 'run_experiment(name="other", run="./other.sh")\n'
 
 
+def _lit(v):
+    """pylit, except that {"__raw__": src} stands for the Python expression src (values of the wrong type)."""
+    if isinstance(v, dict) and set(v) == {"__raw__"}:
+        return v["__raw__"]
+    return graphs.pylit(v)
+
+
 def group_src(name, run, insts, chain, deps, raw_insts=None):
     if raw_insts is None:
         parts = []
         for (nm, a, o, p) in insts:
             kw = ["name=%s" % graphs.pylit(nm)]
             if a:
-                kw.append("args=%s" % graphs.pylit(a))
+                kw.append("args=%s" % _lit(a))
             if o:
-                kw.append("options=%s" % graphs.pylit(o))
+                kw.append("options=%s" % _lit(o))
             if p:
                 kw.append("parallelizable=True")
             parts.append("ExperimentInstance(%s)" % ", ".join(kw))
@@ -59,7 +67,7 @@ def expand_src(name, run, insts, chain, deps):
         if chain and prev is not None:
             d = d + [":" + prev]
         kw = ["name=%s" % graphs.pylit(nm), "run=%s" % graphs.pylit(run), "parallelizable=%r" % bool(p),
-              "args=%s" % graphs.pylit(a), "options=%s" % graphs.pylit(o), "deps=%s" % graphs.pylit(d)]
+              "args=%s" % _lit(a), "options=%s" % _lit(o), "deps=%s" % graphs.pylit(d)]
         out.append("run_experiment(%s)\n" % ", ".join(kw))
         prev = nm
     out.append("combine(name=%s, deps=%s)\n" % (graphs.pylit(name), graphs.pylit([":" + i[0] for i in insts])))
@@ -104,6 +112,17 @@ def gen(tier):
             for chain in (False, True):
                 yield {"tag": "iterable-%s" % form, "insts": [("e%d" % i, ["x", i], {}, bool(i % 2)) for i in range(k)], "chain": chain,
                        "deps": [":base"], "run": k <= 2, "form": form}
+    # per-instance args / options of the wrong shape: the explicit run_experiment decides (it rejects non-lists / non-dicts)
+    for raw in ('("x", 1)', '"ab"', '{"x": 1}', "range(2)", "None", "5", "iter([1])", '{"x"}', "[[1]]", "[None]"):
+        for pos in (0, 1):
+            insts = [("e0", [], {}, False), ("e1", ["y"], {}, False)]
+            insts[pos] = (insts[pos][0], {"__raw__": raw}, {}, False)
+            yield {"tag": "inst-args", "insts": insts, "chain": bool(pos), "deps": [":base"], "run": True}
+    for raw in ('[("k", 1)]', '(("k", 1),)', "None", "5", '"ab"', "[]", '{"k": [1]}', '{"k": None}', '{1: "v"}'):
+        for pos in (0, 1):
+            insts = [("e0", [], {}, False), ("e1", [], {"t": 2}, False)]
+            insts[pos] = (insts[pos][0], [], {"__raw__": raw}, False)
+            yield {"tag": "inst-options", "insts": insts, "chain": bool(pos), "deps": [":base"], "run": True}
     for raw in ('["e0"]', '[("e0", [], {}, False)]', "None", "5", '[ExperimentInstance(name="e0"), None]'):
         yield {"tag": "malformed", "insts": None, "raw": raw, "chain": False, "deps": None, "run": False}
 
